@@ -12,8 +12,20 @@ PROP = "C10"
 RUN_MODULE = "Run.C10Run"
 CHUNK = 400
 
-VALUE_POOL = [0, 1, 2, -1, 7, {"s": 0}, {"s": 1}, {"s": 2}, {"t": [1]}, {"t": []}, {"t": [0, {"s": 1}]}, None]
-INVALID = [99, {"s": 9}, {"t": [9]}, -5, False]
+import enum
+
+
+class C10E(enum.Enum):
+    """enum members used as state values (plain Enum: a member equals only itself)"""
+    E1 = 1
+    E2 = 2
+    E3 = 3
+    E9 = 9
+
+
+VALUE_POOL = [0, 1, 2, -1, 7, {"s": 0}, {"s": 1}, {"s": 2}, {"t": [1]}, {"t": []}, {"t": [0, {"s": 1}]}, None,
+              {"e": 1}, {"e": 2}, {"e": 3}]
+INVALID = [99, {"s": 9}, {"t": [9]}, -5, False, {"e": 9}]
 FIELDS = ["state", "status", "st_1", "workflow_state"]
 SHAPES = ["none", "plain", "property", "classlevel", "falsy", "len0"]
 
@@ -21,6 +33,8 @@ SHAPES = ["none", "plain", "property", "classlevel", "falsy", "len0"]
 def pyv(v):
     if v is None or isinstance(v, (bool, int)):
         return v
+    if "e" in v:
+        return C10E(v["e"])
     if "s" in v:
         return "" if v["s"] == 0 else f"v{v['s']}"
     if "t" in v:
@@ -29,6 +43,8 @@ def pyv(v):
 
 
 def enc(v):
+    if isinstance(v, C10E):
+        return {"e": v.value}
     if v is None or isinstance(v, bool) or isinstance(v, int):
         return v
     if isinstance(v, str):
@@ -175,6 +191,8 @@ def cq_val(v):
         return f"(VBool {b(v)})"
     if isinstance(v, int):
         return f"(VInt ({v})%Z)"
+    if "e" in v:
+        return f"(VOpaque {v['e']} true)"
     if "s" in v:
         return f"(VStr {v['s']})"
     if "t" in v:
